@@ -320,17 +320,19 @@ func BatchRemove(st *Storage, r *leveldbutil.Range, limit int) (int, error) {
 	var batch leveldb.Batch
 	defer batch.Reset()
 
-	if r == nil {
-		r = &leveldbutil.Range{}
+	// NOTE range of caller should not be touched
+	nr := &leveldbutil.Range{}
+	if r != nil {
+		nr.Start, nr.Limit = r.Start, r.Limit
 	}
 
-	start := r.Start
+	start := nr.Start
 
 	for {
-		r.Start = start
+		nr.Start = start
 
 		if err := st.Iter(
-			r,
+			nr,
 			func(key, _ []byte) (bool, error) {
 				if batch.Len() == limit {
 					start = key
